@@ -770,25 +770,36 @@ func resolverProp(rec *verifkit.Recorder, pfx string, gen *rapid.Generator[world
 	return func(t *rapid.T) {
 		w := gen.Draw(t, "world")
 		rec.Eval()
-		e := newEnv(w)
-		for stepNo := 0; stepNo < maxSteps; stepNo++ {
-			exp, a := e.step(t, w)
-			classify(rec, pfx, w, exp, a, stepNo)
-			if e.panics > 0 {
-				rec.Label("reconcile panicked (tolerated: installed version not semver)")
-				e.panics = 0
-			}
-			if exp.Write && exp.NTags >= 2 || exp.Cyclic || (exp.NTags >= 1 && strings.Contains(exp.Why, "no tag qualifies")) {
-				rec.NonTrivial(verifkit.JSON(w), func() any { return map[string]any{"world": w, "expect": exp.Why, "accept": setString(exp.Accept)} })
-			}
-			if a == nil {
-				break
-			}
-			sp, _ := verifsim.Nested(a.Obj, "spec", "package").(string)
-			adopt(&w, exp, sp)
-			e.setLock(w)
-		}
+		runHistory(t, rec, pfx, w, maxSteps)
 	}
+}
+
+// runHistory reconciles the lock up to maxSteps times; after every accepted
+// package write the package enters the lock (adopt) and the lock is reconciled
+// again. It returns the identifiers written, in order.
+func runHistory(t failer, rec *verifkit.Recorder, pfx string, w world, maxSteps int) []string {
+	var written []string
+	e := newEnv(w)
+	for stepNo := 0; stepNo < maxSteps; stepNo++ {
+		exp, a := e.step(t, w)
+		classify(rec, pfx, w, exp, a, stepNo)
+		if e.panics > 0 {
+			rec.Label("reconcile panicked (tolerated: installed version not semver)")
+			e.panics = 0
+		}
+		if exp.Write && exp.NTags >= 2 || exp.Cyclic || (exp.NTags >= 1 && strings.Contains(exp.Why, "no tag qualifies")) {
+			rec.NonTrivial(verifkit.JSON(w), func() any { return map[string]any{"world": w, "expect": exp.Why, "accept": setString(exp.Accept)} })
+		}
+		if a == nil {
+			break
+		}
+		sp, _ := verifsim.Nested(a.Obj, "spec", "package").(string)
+		ref, _ := name.ParseReference(sp, name.WithDefaultRegistry(defaultRegistry))
+		written = append(written, ref.Identifier())
+		adopt(&w, exp, sp)
+		e.setLock(w)
+	}
+	return written
 }
 
 // TestVerifC17Resolver: generated lock contents, installed packages, tag lists
@@ -848,13 +859,31 @@ func TestVerifC17Selection(t *testing.T) {
 	rapid.Check(t, resolverProp(rec, "S", genSelectionWorld(), 2))
 }
 
+// fuzzSeeds gives the mutator long, varied byte streams to start from (rapid
+// turns the bytes into draws; short inputs only reach trivial worlds).
+func fuzzSeeds(f *testing.F) {
+	x := uint64(0x9E3779B97F4A7C15)
+	for i := 0; i < 24; i++ {
+		b := make([]byte, 512+128*i)
+		for j := range b {
+			x ^= x << 13
+			x ^= x >> 7
+			x ^= x << 17
+			b[j] = byte(x >> 32)
+		}
+		f.Add(b)
+	}
+}
+
 func FuzzVerifC17Resolver(f *testing.F) {
 	rec := verifkit.New(f, "C17", "fuzz: resolver worlds")
+	fuzzSeeds(f)
 	f.Fuzz(rapid.MakeFuzz(resolverProp(rec, "FR", genWorld(), 5)))
 }
 
 func FuzzVerifC17Selection(f *testing.F) {
 	rec := verifkit.New(f, "C17", "fuzz: constraint/tag selection through the resolver")
+	fuzzSeeds(f)
 	f.Fuzz(rapid.MakeFuzz(resolverProp(rec, "FS", genSelectionWorld(), 2)))
 }
 
@@ -869,7 +898,7 @@ func TestVerifC17ResolverPinned(t *testing.T) {
 	rows := []struct {
 		name string
 		w    world
-		want string // "" = no write, else the identifier that must be written
+		want string // the identifiers written over the history, comma separated ("" = no write)
 	}{
 		{"install-highest-unsorted", world{Mode: 0, Lock: []lockPkg{{Source: p0, Version: "1.0.0", Deps: dep(">=1.0.0")}}, Tags: map[string][]string{p1: {"1.5.0", "latest", "2.1.0", "1.0.0", "not-semver", "2.0.0"}}}, "2.1.0"},
 		{"install-excludes-bound", world{Mode: 0, Lock: []lockPkg{{Source: p0, Version: "1.0.0", Deps: dep(">1.0.0, <2.0.0")}}, Tags: map[string][]string{p1: {"2.0.0", "1.0.0", "1.1.0"}}}, "1.1.0"},
@@ -880,6 +909,11 @@ func TestVerifC17ResolverPinned(t *testing.T) {
 		{"upgrade-lowest-not-older", world{Mode: 1, Lock: []lockPkg{{Source: p0, Version: "1.0.0", Deps: dep(">=1.5.0")}, {Source: p1, Kind: repoKind(p1), Version: "1.0.0"}}, Objs: []pkgObj{{Kind: repoKind(p1), Name: "dep", Package: p1 + ":1.0.0"}}, Tags: map[string][]string{p1: {"3.0.0", "0.9.0", "2.0.0", "1.5.0", "1.0.0"}}}, "1.5.0"},
 		{"upgrade-no-downgrade-without-option", world{Mode: 1, Lock: []lockPkg{{Source: p0, Version: "1.0.0", Deps: dep("<1.0.0")}, {Source: p1, Kind: repoKind(p1), Version: "1.0.0"}}, Objs: []pkgObj{{Kind: repoKind(p1), Name: "dep", Package: p1 + ":1.0.0"}}, Tags: map[string][]string{p1: {"0.9.0", "1.0.0"}}}, ""},
 		{"downgrade-highest-older", world{Mode: 2, Lock: []lockPkg{{Source: p0, Version: "1.0.0", Deps: dep("<1.5.0")}, {Source: p1, Kind: repoKind(p1), Version: "2.0.0"}}, Objs: []pkgObj{{Kind: repoKind(p1), Name: "dep", Package: p1 + ":2.0.0"}}, Tags: map[string][]string{p1: {"0.9.0", "1.2.3", "1.0.0", "2.0.0", "1.5.0"}}}, "1.2.3"},
+		// Two parents with disjoint ranges; the dependency is installed and locked at a version only the first
+		// parent accepts. No tag satisfies EVERY parent, so nothing may be written. (The fuzz campaign found this
+		// row against the sensitivity mutant that honours only the first parent's constraint.)
+		{"upgrade-disjoint-parents", world{Mode: 1, Lock: []lockPkg{{Source: p0, Version: "1.0.0", Deps: dep("^0.9.0")}, {Source: p2, Kind: repoKind(p2), Version: "1.0.0", Deps: dep(">=1.0.0")}, {Source: p1, Kind: repoKind(p1), Version: "0.9.0"}}, Objs: []pkgObj{{Kind: repoKind(p1), Name: "acme-p1", Package: p1 + ":0.9.0"}}, Tags: map[string][]string{p1: {"0.9.0", "1.0.0"}}}, ""},
+		{"history-disjoint-parents", world{Mode: 1, Lock: []lockPkg{{Source: p0, Version: "1.0.0", Deps: []depSpec{{Pkg: p1, Kind: repoKind(p1), Style: 0, Cons: "^0.9.0"}}}, {Source: p2, Kind: repoKind(p2), Version: "1.0.0", Deps: []depSpec{{Pkg: p1, Kind: repoKind(p1), Style: 0, Cons: ">=1.0.0"}}}}, Tags: map[string][]string{p1: {"0.9.0", "1.0.0"}}}, "0.9.0"},
 		// Installed by digest, a parent asks for a range, upgrades enabled: nothing is "not older"
 		// than a digest, so nothing may be written. (The code reaches semver.MustParse(digest) and
 		// panics here; controller-runtime recovers reconciler panics by default, so the observable
@@ -888,16 +922,9 @@ func TestVerifC17ResolverPinned(t *testing.T) {
 	}
 	for _, r := range rows {
 		rec.Eval()
-		e := newEnv(r.w)
-		exp, a := e.step(fatalName{t, r.name}, r.w)
-		got := ""
-		if a != nil {
-			sp, _ := verifsim.Nested(a.Obj, "spec", "package").(string)
-			ref, _ := name.ParseReference(sp)
-			got = ref.Identifier()
-		}
+		got := strings.Join(runHistory(fatalName{t, r.name}, rec, "P", r.w, 4), ",")
 		if got != r.want {
-			t.Fatalf("%s: wrote %q, want %q (reference: %s %s)", r.name, got, r.want, exp.Why, setString(exp.Accept))
+			t.Fatalf("%s: wrote %q, want %q", r.name, got, r.want)
 		}
 		rec.NonTrivial(r.name, func() any { return r.name })
 	}
